@@ -60,6 +60,8 @@ def run_case(case):
     res = {"counters": {}, "maxima": {}, "violations": [], "features": {}, "nontrivial": False}
     N = case["agents"]
     init = gen.gen_initial_states(rng, ref, N, int_cont=0.4 if case["index"] % 4 == 2 else 0.0)
+    if case["index"] % 5 == 0:
+        pipeline.run_sibling(desc, simulate=True, counters=res["counters"])
     mon = simcheck.Monitors().install()
     try:
         try:
